@@ -94,7 +94,10 @@ def run(ctx: Ctx) -> None:
         for name, enum, meth, up, low in PARSERS:
             parse = getattr(enum, meth)
             for m in enum:
-                for s in member_strings(name, enum, up, low, m):
+                # every spelling also as a string object of its own (as read from a file / built at run time), not the
+                # very object held by the enum
+                spellings = [x for s0 in member_strings(name, enum, up, low, m) for x in (s0, "".join(list(s0)))]
+                for s in spellings:
                     ctx.begin_case("members", 0, parser=name, input=s)
                     ctx.count("parser.member_checked")
                     try:
